@@ -404,7 +404,7 @@ def run(run):
         i = 0
         for pv, order in plan:
             terminals = [('success',)] + ([DISCONNECTS[(i + j) % len(
-                DISCONNECTS)] for j in range(3 if thorough else 1)])
+                DISCONNECTS)] for j in range(5 if thorough else 1)])
             for terminal in terminals:
                 i += 1
                 if not run.mine(i):
